@@ -1,8 +1,10 @@
 package rules
 
 import (
+	"go/constant"
 	"go/token"
 	"go/types"
+	"math"
 
 	"golang.org/x/tools/go/ssa"
 
@@ -515,4 +517,228 @@ func feedsReturn(fn *ssa.Function, v ssa.Value) bool {
 		return false
 	}
 	return up(v)
+}
+
+// ---- a small interval evaluation for the random term of the jitter factor ----
+
+// fIv is a closed interval of float values; known=false means "could not be evaluated" (no verdict), unbounded=true
+// means the value is known to have no finite bound (a normally or exponentially distributed draw).
+type fIv struct {
+	lo, hi    float64
+	known     bool
+	unbounded bool
+	why       string
+}
+
+func fUnknown(why string) fIv { return fIv{why: why} }
+
+func fJoin(a, b fIv) fIv {
+	if !a.known {
+		return a
+	}
+	if !b.known {
+		return b
+	}
+	out := fIv{lo: math.Min(a.lo, b.lo), hi: math.Max(a.hi, b.hi), known: true, unbounded: a.unbounded || b.unbounded}
+	if a.unbounded {
+		out.why = a.why
+	} else if b.unbounded {
+		out.why = b.why
+	}
+	return out
+}
+
+// floatInterval evaluates v from constants, the documented ranges of math and math/rand functions, arithmetic, and
+// module functions (the union over their returns); a call of a function-typed parameter is the union over the
+// functions handed in at the call sites of the function holding the parameter.
+func floatInterval(c *core.Ctx, v ssa.Value, depth int) fIv {
+	if depth <= 0 {
+		return fUnknown("too deep")
+	}
+	switch x := v.(type) {
+	case *ssa.Const:
+		if x.Value == nil {
+			return fUnknown("nil constant")
+		}
+		f, _ := constant.Float64Val(constant.ToFloat(x.Value))
+		return fIv{lo: f, hi: f, known: true}
+	case *ssa.Convert:
+		return floatInterval(c, x.X, depth)
+	case *ssa.ChangeType:
+		return floatInterval(c, x.X, depth)
+	case *ssa.UnOp:
+		if x.Op == token.SUB {
+			a := floatInterval(c, x.X, depth-1)
+			if !a.known {
+				return a
+			}
+			return fIv{lo: -a.hi, hi: -a.lo, known: true, unbounded: a.unbounded, why: a.why}
+		}
+		if x.Op == token.MUL {
+			if sv := stripAllocs(x); sv != ssa.Value(x) {
+				return floatInterval(c, sv, depth-1)
+			}
+		}
+		return fUnknown("load of " + an.D().Of(x))
+	case *ssa.Phi:
+		var out fIv
+		for i, e := range x.Edges {
+			iv := floatInterval(c, e, depth-1)
+			if i == 0 {
+				out = iv
+			} else {
+				out = fJoin(out, iv)
+			}
+		}
+		return out
+	case *ssa.BinOp:
+		a, b := floatInterval(c, x.X, depth-1), floatInterval(c, x.Y, depth-1)
+		if !a.known {
+			return a
+		}
+		if !b.known {
+			return b
+		}
+		out := fIv{known: true, unbounded: a.unbounded || b.unbounded, why: a.why + b.why}
+		switch x.Op {
+		case token.ADD:
+			out.lo, out.hi = a.lo+b.lo, a.hi+b.hi
+		case token.SUB:
+			out.lo, out.hi = a.lo-b.hi, a.hi-b.lo
+		case token.MUL:
+			ps := []float64{a.lo * b.lo, a.lo * b.hi, a.hi * b.lo, a.hi * b.hi}
+			out.lo, out.hi = ps[0], ps[0]
+			for _, p := range ps {
+				out.lo, out.hi = math.Min(out.lo, p), math.Max(out.hi, p)
+			}
+		case token.QUO:
+			if b.lo <= 0 && b.hi >= 0 {
+				return fUnknown("division by an interval containing 0")
+			}
+			ps := []float64{a.lo / b.lo, a.lo / b.hi, a.hi / b.lo, a.hi / b.hi}
+			out.lo, out.hi = ps[0], ps[0]
+			for _, p := range ps {
+				out.lo, out.hi = math.Min(out.lo, p), math.Max(out.hi, p)
+			}
+		default:
+			return fUnknown("operator " + x.Op.String())
+		}
+		return out
+	case *ssa.Call:
+		t := an.Callee(x)
+		if t == nil {
+			// a function value: the functions that can be behind it
+			fns, why := funcsBehind(c, x.Call.Value)
+			if len(fns) == 0 {
+				return fUnknown(why)
+			}
+			var out fIv
+			for i, f := range fns {
+				iv := funcInterval(c, f, x.Call.Args, depth-1)
+				if i == 0 {
+					out = iv
+				} else {
+					out = fJoin(out, iv)
+				}
+			}
+			return out
+		}
+		return funcInterval(c, t, x.Call.Args, depth-1)
+	}
+	return fUnknown(an.D().Of(v))
+}
+
+func funcInterval(c *core.Ctx, t *ssa.Function, args []ssa.Value, depth int) fIv {
+	pkg := ""
+	if t.Pkg != nil {
+		pkg = t.Pkg.Pkg.Path()
+	}
+	switch {
+	case pkg == "math" && (t.Name() == "Cos" || t.Name() == "Sin"):
+		return fIv{lo: -1, hi: 1, known: true}
+	case (pkg == "math/rand" || pkg == "math/rand/v2") && t.Name() == "Float64":
+		return fIv{lo: 0, hi: 1, known: true}
+	case (pkg == "math/rand" || pkg == "math/rand/v2") && (t.Name() == "NormFloat64" || t.Name() == "ExpFloat64"):
+		return fIv{lo: math.Inf(-1), hi: math.Inf(1), known: true, unbounded: true, why: t.Name() + " has no finite bound"}
+	case pkg == "math" && (t.Name() == "Max" || t.Name() == "Min") && len(args) == 2:
+		a, b := floatInterval(c, args[0], depth), floatInterval(c, args[1], depth)
+		if !a.known || !b.known {
+			// a clamp against a constant still bounds one side
+			if t.Name() == "Max" && b.known && !a.known {
+				a, b = b, a
+			}
+			return fUnknown("clamp of an unknown")
+		}
+		if t.Name() == "Max" {
+			return fIv{lo: math.Max(a.lo, b.lo), hi: math.Max(a.hi, b.hi), known: true, unbounded: math.IsInf(math.Max(a.hi, b.hi), 1)}
+		}
+		return fIv{lo: math.Min(a.lo, b.lo), hi: math.Min(a.hi, b.hi), known: true, unbounded: math.IsInf(math.Min(a.lo, b.lo), -1)}
+	}
+	if !core.InModule(t) || t.Blocks == nil || depth <= 0 {
+		return fUnknown("result of " + core.FuncName(t))
+	}
+	var out fIv
+	n := 0
+	for _, ret := range an.Returns(t) {
+		if len(ret.Results) != 1 {
+			return fUnknown("results of " + core.FuncName(t))
+		}
+		iv := floatInterval(c, ret.Results[0], depth)
+		if n == 0 {
+			out = iv
+		} else {
+			out = fJoin(out, iv)
+		}
+		n++
+	}
+	if n == 0 {
+		return fUnknown("no return in " + core.FuncName(t))
+	}
+	// the result is finite when the clamping made it so
+	if out.known && !math.IsInf(out.lo, 0) && !math.IsInf(out.hi, 0) {
+		out.unbounded = false
+	}
+	return out
+}
+
+// funcsBehind: the functions a function value can stand for — the value itself, or, for a (captured) parameter, what
+// every call site of the function holding the parameter hands in.
+func funcsBehind(c *core.Ctx, v ssa.Value) ([]*ssa.Function, string) {
+	v = an.Strip(v)
+	if ld, ok := v.(*ssa.UnOp); ok && ld.Op == token.MUL {
+		v = ld.X
+	}
+	if fv, ok := v.(*ssa.FreeVar); ok {
+		b := an.FreeVarBinding(fv)
+		if al, isAl := b.(*ssa.Alloc); isAl {
+			if sts := an.StoresTo(al); len(sts) == 1 {
+				b = an.Strip(sts[0].Val)
+			}
+		}
+		v = b
+	}
+	if f := an.FuncValueOf(v); f != nil {
+		return []*ssa.Function{f}, ""
+	}
+	p, ok := v.(*ssa.Parameter)
+	if !ok {
+		return nil, "a function value that is neither a function nor a parameter: " + an.D().Of(v)
+	}
+	sites := an.CallSitesOf(c, p.Parent())
+	if len(sites) == 0 {
+		return nil, "no call site of " + core.FuncName(p.Parent())
+	}
+	idx := an.ParamIndex(p)
+	var out []*ssa.Function
+	for _, s := range sites {
+		if idx >= len(s.Common().Args) {
+			return nil, "argument missing"
+		}
+		fs, why := funcsBehind(c, s.Common().Args[idx])
+		if len(fs) == 0 {
+			return nil, why
+		}
+		out = append(out, fs...)
+	}
+	return out, ""
 }
